@@ -42,7 +42,12 @@ HANDON = ["filter", "filter_out", "sort", "unique", "head", "tail", "slice", "co
 EDIT = ["modify", "modify_if", "rename", "select", "unselect", "fill_missing_keys", "fill_missing_keys_noarg", "inner_join", "left_join"]
 
 def generate(rng, tier):
-    return {"hseed": rng.getrandbits(48), "nsteps": rng.randint(5, 25), "nroots": rng.choice([1, 1, 2])}
+    case = {"hseed": rng.getrandbits(48), "nsteps": rng.randint(5, 25), "nroots": rng.choice([1, 1, 2])}
+    if rng.random() < 0.012:
+        # a long derivation chain: a list built by appending items one by one in a loop (each append hands on the items of its predecessor)
+        case["long_chain"] = rng.choice([1100, 1500, 2500])
+        case["nsteps"] = rng.randint(3, 8)
+    return case
 
 class Node:
     _trees = [0]
@@ -88,6 +93,16 @@ def execute(case):
     with capture_stdout() as buf:
         for r in range(case["nroots"]):
             nodes.append(Node(di.ListOfDicts(fresh_items(rng.randint(1, 6), r))))
+    if case.get("long_chain"):
+        res.cls("long-derivation-chain")
+        with capture_stdout():
+            cur = nodes[0]
+            lst = cur.lst
+            for j in range(case["long_chain"]):
+                lst = lst.append({"_tag_": 900000 + j, "k": 1, "s": "x"})
+                if j % 500 == 499 or j == case["long_chain"] - 1:
+                    cur = Node(lst, parent=cur, how="append")
+                    nodes.append(cur)
     edits = 0
     branches = 0
     cuts = 0
